@@ -34,7 +34,7 @@ func runC05(c *Ctx, ev *Evidence) ([]Violation, error) {
 	pre := stateVars(lr.T, "pre.")
 	s0 := lr.T.Instance(0, pre)
 	s1 := lr.T.Instance(1, s0.Post)
-	bodyAs := []*smt.Term{s0.Formula, s1.Formula, ps.WellFormed(), notUnsafe, smt.Not(s0.Failed), smt.Not(s1.Failed), smt.Not(s0.Returned),
+	bodyAs := []*smt.Term{a1RawText([]*StepVars{s0, s1}), s0.Formula, s1.Formula, ps.WellFormed(), notUnsafe, smt.Not(s0.Failed), smt.Not(s1.Failed), smt.Not(s0.Returned),
 		smt.Or(kindIs(s0.Kind, 2), kindIs(s0.Kind, 4)), isSS(s0.Data), kindIs(s1.Kind, 1),
 		smt.Lt(smt.IntC(0), s1.NWrites)}
 	r2 := lr.solve("C05-body-2step", bodyAs, []*smt.Term{s0.Kind, s0.Data, s0.Sel, s1.Sel}, timeout)
